@@ -416,7 +416,9 @@ static void emit_function(raw_ostream& o, Function& F) {
           case Instruction::Mul:
             if (w == 64) { // 64-bit products go through a macro: plain '*' by default, an uninterpreted function under -DVERIF_UF_MUL (constant operand second)
               if (isa<ConstantInt>(bo->getOperand(0)) && !isa<ConstantInt>(bo->getOperand(1))) std::swap(a, b);
-              e = "VERIF_MUL64(" + a + ", " + b + ")";
+              auto* c1 = dyn_cast<ConstantInt>(bo->getOperand(0)); auto* c2 = dyn_cast<ConstantInt>(bo->getOperand(1));
+              bool smallc = (c1 && c1->getValue().ult(65536)) || (c2 && c2->getValue().ult(65536));   // index arithmetic and x*5 stay exact
+              e = smallc ? "(uint64_t)" + a + "*(uint64_t)" + b : "VERIF_MUL64(" + a + ", " + b + ")";
             } else e = "(" + utype(w) + ")" + a + "*(" + utype(w) + ")" + b;
             break;
           case Instruction::UDiv: e = a + "/" + b; break;
